@@ -24,6 +24,10 @@ CLAIMS = {
          "TLC trace validation against RFC 2104 in TLA+ over executable hash specifications"),
  "C09": ("all histories of {input, result, raw_result, reset, clone} on the MAC and legacy digest objects: exhaustive TLC exploration of MacObj (four kinds) with the contract invariants; TLC-generated behaviours replayed on Hmac, Poly1305, BLAKE2 MACs and all legacy digests; TraceMac admits only the functional MAC/digest of (construction key, bytes since reset), repeated results equal or loud, input after result loud", "5 C09",
          "TLC exhaustive model checking of the MAC/digest object machine + TLC-generated behaviours replayed + TLC trace validation of the result contract"),
+ "C10": ("HKDF / PBKDF2 / scrypt outputs for boundary output lengths, iteration counts and a (log2 N, r, p) grid, and the refusal beyond 255*HashLen: TLC recomputes RFC 5869 / RFC 8018 / RFC 7914 from HMAC.tla and Scrypt.tla; the HMAC object reuse pattern inside the loops is the model-checked MacObj machine", "5 C10",
+         "TLC trace validation against TLA+ transcriptions of RFC 5869 / 8018 / 7914"),
+ "C11": ("Argon2d/i/id tags over (type, version, t, p, m incl. non-multiples of 4p and a segment longer than 128, tag lengths crossing 64, key/aad presence, both entry points): TLC recomputes RFC 9106 from Argon2.tla (H0, H', indexing position machine, G)", "5 C11",
+         "TLC trace validation against a TLA+ transcription of RFC 9106"),
 }
 NA = {}
 def main():
